@@ -2,7 +2,7 @@
 import json
 
 from .. import common, families, langs, modelgen
-from ..langs import COL, F, S, step
+from ..langs import COL, F, S, SUB, step
 from ..refs import inherit, sem
 
 PROP = 'C01'
@@ -233,6 +233,49 @@ def _job(job):
     return stats, viols[:50]
 
 
+def chain_cases():
+    """long navigation chains over densely linked models: the result is a tiny set, an evaluator that keeps
+    lists (one entry per path) needs time exponential in the length of the chain"""
+    def chain(k, sub):
+        hop = SUB('Aa', F('peers')) if sub else F('peers')
+        e = hop
+        for _ in range(k - 1):
+            e = COL(e, hop)
+        return COL(e, S('t'))
+    dense2 = sem.PlainModel([('a1', 'Aa'), ('a2', 'Bb')], [('Peer', 'peers', ['a1', 'a2'], 'peersOf', ['a1', 'a2'])])
+    dense3 = sem.PlainModel([('a1', 'Aa'), ('a2', 'Bb'), ('a3', 'Aa')],
+                            [('Peer', 'peers', ['a1', 'a2', 'a3'], 'peersOf', ['a1', 'a2', 'a3'])])
+    ring = sem.PlainModel([('a1', 'Aa'), ('a2', 'Aa'), ('c1', 'Cc')],
+                          [('Peer', 'peers', ['a1'], 'peersOf', ['a2']), ('Peer', 'peers', ['a2'], 'peersOf', ['a1']),
+                           ('Peer', 'peers', ['c1'], 'peersOf', ['a1', 'a2'])])
+    out = []
+    for k, sub in ((4, True), (6, True), (10, True), (12, False), (24, False), (40, False)):
+        for mname, pm in (('dense2', dense2), ('dense3', dense3), ('ring', ring)):
+            out.append((k, sub, mname, chain(k, sub), pm))
+    return out
+
+
+@common.job
+def _job_chain(i):
+    k, sub, mname, e, pm = chain_cases()[i]
+    st = step('s0', 'or', reaches=[e])
+    sp = families.sem_lang([st], [], [])
+    fx = langs.fixture(sp, key=('C01chain', i))
+    lang = sem.Lang(sp)
+    resolved = {t: inherit.resolve(sp, t) for t in TYPES}
+    stats = {}
+    vs = check_one(fx, lang, resolved, pm, False, stats)
+    out = []
+    for v in vs:
+        j = v.to_json()
+        j['key'] = j['key'] + (':chain_of_subtype_filters' if sub else ':chain_of_fields')
+        j['case'] = dict(j.get('case') or {}, chain_length=k, model_name=mname)
+        out.append(j)
+    stats['graphs'] = 1
+    stats['chain_cases'] = 1
+    return stats, out
+
+
 def make_hist_system(name):
     from ..refmodel import ModelSystem
     return ModelSystem({'name': name, 'spec': families.ops_lang(), 'types': ['Host', 'Data'],
@@ -264,6 +307,11 @@ def run(tier, seed):
             'expressions': n_expr, 'models': len(models), 'chunks': len(chunks)}
         nstates += len(models) * len(chunks)
         res.sample({'expression': sem.show(chunks[-1][0][-1]), 'model': models[-1].describe()})
+    # part C: navigation chains of 4 .. 40 hops over densely linked models (termination in practice)
+    for stats, viols in common.pmap(_job_chain, common.rotate(list(range(len(chain_cases()))), seed)):
+        res.merge_counts(stats)
+        res.add_violations(viols)
+    res.bounds['chains'] = 'peers / peers[Aa] chains of 4..40 hops x {2, 3 mutually linked assets, ring}; 3 s CPU per graph'
     # part B: models reached by edit histories (removals, partial removals, re-adds), with graph
     # generation itself as an operation, so that state hidden in the model (caches, stale
     # registrations) is exercised: every reached state's graph is compared with the semantics
